@@ -96,6 +96,11 @@ func check(c Case) (string, bool) {
 		set := &par2ref.Set{SliceSize: 4, Client: "verif hostile writer"}
 		for i, n := range names {
 			f := par2ref.NewSetFile(n, originals[i], 4)
+			if n == hostile && c.Empty {
+				// a zero-length entry (as other clients write for empty files): no slices, no checksum pairs
+				f = par2ref.NewSetFile(n, []byte{}, 4)
+				originals[i] = []byte{}
+			}
 			if c.NulInID {
 				// gopar computes the ID over the name up to the first NUL
 				nm := n
@@ -115,6 +120,16 @@ func check(c Case) (string, bool) {
 			}
 		}
 		crit := set.CriticalPackets()
+		if c.Empty {
+			var kept []par2ref.Packet
+			for _, p := range crit {
+				if p.Type == par2ref.TypeIFSC && len(p.Body) == 16 {
+					continue
+				}
+				kept = append(kept, p)
+			}
+			crit = kept
+		}
 		idx = filepath.Join(arch, "set.par2")
 		os.WriteFile(idx, par2ref.EncodeAll(append([]par2ref.Packet{set.CreatorPacket()}, crit...)), 0o644)
 		ps := append([]par2ref.Packet{set.CreatorPacket()}, crit...)
@@ -278,6 +293,9 @@ func TestCheck(t *testing.T) {
 						continue
 					}
 					do(Case{Format: format, Name: n, Pos: pos, Present: present})
+					if format == "par2" {
+						do(Case{Format: format, Name: n, Pos: pos, Present: present, Empty: true})
+					}
 					if format == "par1" {
 						do(Case{Format: format, Name: n, Pos: pos, Present: present, Unsaved: true, Empty: true})
 						do(Case{Format: format, Name: n, Pos: pos, Present: present, Unsaved: true})
